@@ -13,9 +13,7 @@ pub fn insert_keyword_statement_terminators(input: Vec<Token>, _file_id: &FileId
 
     let mut in_end_statement = false;
     for tok in input {
-        if !in_end_statement && tok.token_type == TokenType::EndIf {
-            in_end_statement = true;
-        } else if in_end_statement
+        if in_end_statement
             && tok.token_type != TokenType::Semicolon
             && tok.token_type != TokenType::Comment
             && tok.token_type != TokenType::Whitespace
@@ -29,6 +27,12 @@ pub fn insert_keyword_statement_terminators(input: Vec<Token>, _file_id: &FileId
                 text: "".to_owned(),
             });
             in_end_statement = false;
+        }
+
+        // An END_IF directly after another END_IF (whose terminator was
+        // just inserted) also needs a terminator
+        if tok.token_type == TokenType::EndIf {
+            in_end_statement = true;
         }
 
         output.push(tok);
